@@ -18,4 +18,7 @@ def run(tier, seed):
     hs = list(KANI)
     res = kani.run("ed25519-dalek", "serial64", hs, features=["hazmat", "digest", "zeroize"], no_default=True, stubbing=True, timeout_s=1200 if tier == "quick" else 3000, jobs=6)
     kani.record(rep, "serial64", res, hs, KANI)
+    # key derivation as one run (seed -> SHA-512 -> clamp -> s*B -> Encode), SHA-512 uninterpreted: checks/c08k.py (llsym layer G)
+    from checks import c08k
+    for t in c08k.harnesses(rep, tier): t()
     return rep
